@@ -208,9 +208,16 @@ func (e *Engine) replaySource(o *Oblig) (src, pkgDir, pkgPath, why string) {
 		}
 		body = strings.Join(lhs, ", ") + " = " + call + "\n"
 	}
+	imports := ""
+	if fc.c != nil {
+		for _, im := range strings.Fields(fc.c.Opts["replay-imports"]) {
+			imports += "import " + strconv.Quote(im) + "\n"
+		}
+	}
 	src = fmt.Sprintf(`package %s
 
 import "testing"
+`+imports+`
 
 // generated by gowp: replay of obligation %s
 func TestVerifReplay(t *testing.T) {
